@@ -11,12 +11,12 @@ def queries(tier, kfs):
                         dict(SINGLE=single), unwind=16, bounds=dict(n='every non-NaN binary64', graph='single' if single else 'multi')))
     # (ii) linear case n = 1: erosion_i == old_i - new_i with new_i the direct solution of the backward-Euler equation
     # (limited at the receivers' new level, zero in lakes and at self receivers), decided PER NODE (cone of influence), cvc5/cadical race
-    structs = [(1, 3, 2, 1, 1, 1, (0, 1, 2)), (2, 4, 2, 1, 0, 1, (1, 2)), (3, 4, 2, 0, 0, 1, (1, 2)), (4, 4, 2, 1, 1, 1, (1, 2, 3))]
+    structs = [(1, 3, 2, 1, 1, 1, (0, 1)), (2, 4, 2, 1, 0, 1, (1, 2)), (3, 4, 2, 0, 0, 1, (1, 2)), (4, 4, 2, 1, 1, 1, (2, 3))]
     if tier != 'quick':
-        structs += [(2, 4, 2, 1, 0, 1, (3,)), (3, 4, 2, 0, 0, 1, (3,)), (1, 3, 2, 1, 1, 2, (1, 2)), (5, 5, 2, 0, 0, 1, (1, 2))]
+        structs += [(1, 3, 2, 1, 1, 1, (2,)), (4, 4, 2, 1, 1, 1, (1,)), (2, 4, 2, 1, 0, 1, (3,)), (3, 4, 2, 0, 0, 1, (3,)), (1, 3, 2, 1, 1, 2, (1, 2)), (5, 5, 2, 0, 0, 1, (1, 2))]
     for (sid, n, d, single, kscalar, rounds, nodes) in structs:
         for node in nodes:
-            for mexp in (('1.0', '0.5') if (tier != 'quick' or (sid, node) in ((1, 1),)) else ('1.0',)):
+            for mexp in (('1.0', '0.5') if tier != 'quick' else ('1.0',)):
                 qs.append(Query('erode_linear.struct%d.node%d.m%s.r%d' % (sid, node, mexp, rounds), 'spl.cpp', 'c13_erode.c',
                                 dict(FSV_N=n, FSV_D=d, FSV_SINGLE=single),
                                 dict(N=n, D=d, SINGLE=single, STRUCT=sid, K_SCALAR=kscalar, ROUNDS=rounds, ONLY_NODE=node, MEXP=mexp, FSV_POW_SEQ=1),
